@@ -517,6 +517,7 @@ def run(M, rec, tier, seed, k, n):
     user_kind_with_a_queue(M, rec, rng, 40 if tier == "quick" else 400)
     user_origin_with_a_speed_state(M, rec, rng, 40 if tier == "quick" else 400)
     restep_on_own_states(M, rec, rng, g, 30 if tier == "quick" else 300)
+    W.preallocated_buffers(M, rec, rng, PROP, 24 if tier == "quick" else 240, with_options=True, what="a step with initial clamps")
     W.complex_step_jacobians(M, rec, rng, PROP, 40 if tier == "quick" else 400, with_options=True, what="a step with positivity options")
 
 
